@@ -142,7 +142,18 @@ func runAPICase(src string, mode scanner.Mode, calls []int) sexp.Node {
 	if mode != 0 {
 		m = 1
 	}
-	n.List = append(n.List, sexp.T("api", sexp.Int(m), sexp.L(cs...), sexp.L(rs...)))
+	// the canonical loop once more, recording how many errors have been reported after each Scan
+	// (the last, false one included): Errors() at cursor j must be exactly that many
+	var counts []sexp.Node
+	s2 := scanner.New(b, mode)
+	for k := 0; ; k++ {
+		ok := s2.Scan()
+		counts = append(counts, sexp.Int(len(s2.Errors())))
+		if !ok || k > len(src) {
+			break
+		}
+	}
+	n.List = append(n.List, sexp.T("api", sexp.Int(m), sexp.L(cs...), sexp.L(rs...), sexp.L(counts...)))
 	return n
 }
 
